@@ -1,34 +1,37 @@
 #!/bin/bash
-# runs every seeded change against the quick check of the property it breaks (and close relatives)
+# every seeded change against the check of the property it breaks. To keep the matrix affordable
+# each run is restricted (--only) to the harnesses of the quick tier that exercise the changed
+# function; "-" = whole quick tier.
 export BV_MAX_REPLAYS=1
 OUT=/verif/seeded/RESULTS.txt; : > $OUT
-run() { seed=$1; shift; for p in "$@"; do r=$(/verif/kani/seedtest.sh $seed $p 2>&1 | grep SEEDTEST); echo "$r" >> $OUT; done; }
-run C01-m1 C01 C17
-run C01-m2 C01
-run C02-m1 C02
-run C02-m2 C02
-run C03-m1 C03 C04
-run C03-m2 C03
-run C04-m1 C04
-run C04-m2 C04 C05
-run C05-m1 C05
-run C05-m2 C05
-run C06-m1 C06
-run C06-m2 C06
-run C07-m1 C07
-run C07-m2 C07 C03
-run C08-m1 C08
-run C08-m2 C08
-run C09-m1 C09 C06
-run C09-m2 C09 C17
-run C10-m1 C10
-run C10-m2 C10
-run C13-m1 C13
-run C13-m2 C13
-run C15-m1 C15 C17
-run C15-m2 C15
-run C16-m1 C16
-run C16-m2b C16
-run C17-m1 C17
-run C17-m2 C17
+run() { seed=$1; prop=$2; only=$3; if [ "$only" = "-" ]; then r=$(/verif/kani/seedtest.sh $seed $prop 2>&1 | grep SEEDTEST); else r=$(/verif/kani/seedtest.sh $seed $prop --only "$only" 2>&1 | grep SEEDTEST); fi; echo "$r only=$only" >> $OUT; }
+run C01-m1 C17 'signature_length'
+run C01-m2 C01 'c01_walk_(auth_v1|v0_v1ext)$'
+run C02-m1 C02 'c02_append_after_block_v0_v0'
+run C02-m2 C02 'two_blocks'
+run C03-m1 C03 'c03_trust_scopes[12]'
+run C03-m1 C04 'c04_scope_block1_rule1'
+run C03-m2 C03 -
+run C04-m1 C04 -
+run C04-m2 C05 'origin|integer'
+run C05-m1 C05 'arity'
+run C05-m2 C05 'origin'
+run C06-m1 C06 'c06_bin_div_int'
+run C06-m2 C06 'c06_bin_add_int|c06_un_negate'
+run C07-m1 C07 'c01_walk_v0_v1ext|c02_append_third_party'
+run C07-m2 C07 'c07_'
+run C08-m1 C08 'c01_walk_auth_v1_sealed'
+run C08-m2 C08 'c08_sealed'
+run C09-m1 C06 'c06_bin_div_int'
+run C09-m2 C17 'p256'
+run C10-m1 C10 -
+run C10-m2 C10 'cumulative'
+run C13-m1 C13 -
+run C13-m2 C13 -
+run C15-m1 C17 'signature_length'
+run C15-m2 C15 'c01_walk_v1_v1'
+run C16-m1 C16 'sigversion'
+run C16-m2b C16 'c16_term_null|c16_unary'
+run C17-m1 C17 'signature'
+run C17-m2 C17 'proto'
 echo DONE >> $OUT
